@@ -875,11 +875,12 @@ class SVG:
         stroke.fill_rule = stroke.clip_rule = "nonzero"
 
         # a few attributes move in interesting ways
-        stroke.opacity *= stroke.stroke_opacity
+        # opacities outside [0, 1] are clamped, as a renderer does
+        stroke.opacity *= _clamp(stroke.stroke_opacity)
         stroke.fill = stroke.stroke
         # the fill and stroke are now different (filled) paths, reset 'fill_opacity'
         # to default and only use a combined 'opacity' in each one.
-        shape.opacity *= shape.fill_opacity
+        shape.opacity *= _clamp(shape.fill_opacity)
         shape.fill_opacity = stroke.fill_opacity = 1.0
 
         # remove all the stroke settings
